@@ -4,8 +4,8 @@
    planners byte for byte on every run).   SQL semantics for window_semantic: model/SqlEval.v (C07, trusted). *)
 From Coq Require Import List ZArith NArith QArith String Ascii Bool.
 From Qryn Require Import lib.Strs lib.CivilDate model.Sql model.SqlRender model.SqlEval model.Logql model.LogqlPlan model.Scans
-  model.ScanCases model.ScansTq proofs.ScansProofs proofs.ScansPlanProofs proofs.ScansSemProofs proofs.ScansTqProofs proofs.ScansPromProofs proofs.ScansLabelProofs proofs.ScansProfProofs proofs.ScansReplanProfProofs proofs.ScansDateProofs proofs.ScansTempoProofs.
-From Qryn Require Import model.PromSel model.ProfSel model.ScansPlanners model.ReplanProf model.ScansProf model.ScansTempo.
+  model.ScanCases model.ScansTq proofs.ScansProofs proofs.ScansPlanProofs proofs.ScansSemProofs proofs.ScansTqProofs proofs.ScansPromProofs proofs.ScansLabelProofs proofs.ScansProfProofs proofs.ScansReplanProfProofs proofs.ScansDateProofs proofs.ScansTempoProofs proofs.ScansPortionsProofs.
+From Qryn Require Import model.PromSel model.ProfSel model.ScansPlanners model.ReplanProf model.ScansProf model.ScansTempo model.ScansPortions.
 From Qryn Require model.TqSql model.Traceql model.TraceqlPlan.
 Import ListNotations.
 Open Scope Z_scope.
@@ -333,6 +333,26 @@ Theorem traceql_all_tags_every_scan_bounded : forall info c key,
 Proof. exact tq_all_tags_scans_bounded. Qed.
 Print Assumptions traceql_all_tags_every_scan_bounded.
 
+(* ---- the portions of a portioned TraceQL search (model/ScansPortions.v = ComplexRequestProcessor.Process /
+   ProcessComplexReqIteration; round 6, seeded change C13-d) ----
+   A search whose complexity estimate reaches the threshold runs as several statements; between them ctx.From is narrowed to the
+   oldest trace a portion kept when it filled the limit.  For EVERY number of portions, limit > 0 and rows returned (ordered by
+   start DESC as the statement orders them, inside the requested window): every portion is sent with a lower bound that is not
+   below the requested From and not above the oldest trace the last full portion kept (those traces are re-read by id and keep
+   their spans; an older trace cannot enter the answer); until a portion fills the limit the bound is the requested From *)
+Theorem traceql_portions_keep_every_candidate : forall req_from limit rows,
+  0 < limit -> rows_wf req_from rows -> rows <> [] ->
+  exists obs, process_froms req_from limit rows = map Some obs /\ spec_ok req_from limit rows obs = true.
+Proof. exact portions_keep_every_candidate. Qed.
+Print Assumptions traceql_portions_keep_every_candidate.
+
+(* the row order is needed: on unsorted rows the test `from.Nanosecond() == 0` (meant as "not set yet", true on every whole
+   second) moves From forward again; TracesDataPlanner orders by start_time_unix_nano DESC, so this is not reachable *)
+Theorem traceql_portion_from_needs_the_row_order :
+  exists starts, iteration_from 0 3 starts = Some 12300000000 /\ List.In 10000000000 starts.
+Proof. exact iteration_from_unsorted_refuted. Qed.
+Print Assumptions traceql_portion_from_needs_the_row_order.
+
 (* ---- the Tempo v1 API (model/ScansTempo.v: SQLIndexQuery.String, GetTracesQuery, GetQueryRequest, GetTagsRequest,
    GetValuesRequest; tied byte for byte to the recorded statements in C13's run).  /api/search with start and end, by tags
    or plain: for every tag list (= != =~ !~), limit, duration bounds, schema version, database name and layout the read of
@@ -399,6 +419,13 @@ Proof. exact prom_examples. Qed.
 Example prom_ctx_window_met : forall cluster db h,
   ctx_tables table_info (prom_ctx cluster db h) /\ pwin_ok true (negb (use_raw_data h)) (prom_ctx cluster db h) (prom_win h).
 Proof. intros. split; [apply prom_ctx_tables | apply prom_win_ok]. Qed.
+(* the history of the C13-d demonstration meets the hypotheses; the spec accepts the model's windows and rejects the seeded ones *)
+Example portions_hyp_met :
+  rows_wf 0 demo_rows /\
+  process_froms 0 2 demo_rows = [Some 0; Some 10000000000; Some 30000000000] /\
+  spec_ok 0 2 demo_rows [0; 10000000000; 30000000000] = true /\
+  spec_ok 0 2 demo_rows [0; 40000000000; 40000000000] = false.
+Proof. exact portions_example. Qed.
 (* the slot theorems speak about statements that do read a slot table *)
 Example slot_reads_exist :
   reads_slot_table (fst (querier_transpile (fun _ _ => true) false "qryn" ds_hints [m_up; m_re])) = true /\
